@@ -94,6 +94,12 @@ M('C20', 'twin: delitem uses del with membership test', CA,
 """, None, 'silent')
 
 # ---------------------------------------------------------------- C14
+M('C14', 'two-site TDVP backward step on the wrong site when moving right', TDVP,
+  "            self.one_site_update(i0 + 1, 0.5j * self.dt)", "            self.one_site_update(i0, 0.5j * self.dt)",
+  'TDVP-half-steps')
+M('C14', 'two-site TDVP backward step also at the end of the sweep', TDVP,
+  "        elif self.move_right is False:\n            self.one_site_update(i0, 0.5j * self.dt)",
+  "        else:\n            self.one_site_update(i0, 0.5j * self.dt)", 'TDVP-half-steps')
 M('C14', 'run_evolution adds trunc_err again (original defect)', ALG,
   '        self.evolve(N_steps, dt)  # updates self.evolved_time and self.trunc_err\n',
   '        trunc_err = self.evolve(N_steps, dt)\n        self.trunc_err = self.trunc_err + trunc_err\n',
